@@ -8,16 +8,17 @@ EXTENDS Proxy, Json, IOUtils
 Recs == ndJsonDeserialize(IOEnv.TRACE_FILE)
 Idx  == 1..Len(Recs)
 
+Dropped  == {i \in Idx : BadDrop(Recs[i].req, Recs[i].obs)}
 Exact    == {i \in Idx : BadExact(Recs[i].req, Recs[i].obs)}
 Relay    == {i \in Idx : BadRelay(Recs[i].req, Recs[i].obs)}
 Leak     == {i \in Idx : BadLeak(Recs[i].req, Recs[i].obs)}
 ErrNoOp  == {i \in Idx : BadErrNoOp(Recs[i].req, Recs[i].obs)}
 Unfaith  == {i \in Idx : BadFaithful(Recs[i].req, Recs[i].obs)}
-Bad      == Exact \cup Relay \cup Leak \cup ErrNoOp \cup Unfaith
+Bad      == Dropped \cup Exact \cup Relay \cup Leak \cup ErrNoOp \cup Unfaith
 Drift    == {i \in Idx \ Bad : ~Conforms(Recs[i].req, Recs[i].obs)}
 
 ASSUME ndJsonSerialize(IOEnv.VERDICT_FILE,
-        <<[n |-> Len(Recs), exact |-> Exact, relay |-> Relay, leak |-> Leak, errnoop |-> ErrNoOp,
+        <<[n |-> Len(Recs), dropped |-> Dropped, exact |-> Exact, relay |-> Relay, leak |-> Leak, errnoop |-> ErrNoOp,
            unfaithful |-> Unfaith, drift |-> Drift]>>)
 
 VARIABLE x
